@@ -428,6 +428,31 @@ macro_rules! set_ops {
                         };
                         format!("{}", r)
                     }
+                    "find_tq" => {
+                        // search (not an oracle): honest seeds whose t = NTT^-1(A s1) + s2 has a coefficient >= q before the
+                        // final reduction (about 1e-4 per key); seeds are xi = LE64(counter) || 0^24.  find_tq <start> <count> <max hits>
+                        let (start, count, maxh): (u64, u64, usize) = (a[0].parse().unwrap(), a[1].parse().unwrap(), a[2].parse().unwrap());
+                        let mut hits: Vec<String> = vec![];
+                        for ctr in start..start + count {
+                            let mut xi = [0u8; 32];
+                            xi[0..8].copy_from_slice(&ctr.to_le_bytes());
+                            let (_pk, sk) = ps::KG::keygen_from_seed(&xi);
+                            let (rho, _k, _tr, s1hm, s2hm, _t0) = vh::sk_fields::<K, L>(&sk);
+                            // undo the Montgomery/NTT precompute of s1 and s2 exactly as the serialiser does
+                            let s1h: [P; L] = core::array::from_fn(|l| core::array::from_fn(|n| vh::mont_reduce(s1hm[l][n] as i64)));
+                            let s2m: [P; K] = core::array::from_fn(|k| core::array::from_fn(|n| vh::mont_reduce(s2hm[k][n] as i64)));
+                            let s2 = vh::inv_ntt::<K>(&s2m);
+                            let a_hat = vh::expand_a::<false, K, L>(&rho);
+                            let w = vh::mat_vec_mul_inv_ntt::<K, L>(&a_hat, &s1h);
+                            let mut hit = false;
+                            for k in 0..K { for n in 0..256 {
+                                let c = if s2[k][n] > 4190208 { s2[k][n] - 8380417 } else { s2[k][n] };
+                                if w[k][n] + c >= 8380417 { hit = true; }
+                            } }
+                            if hit { hits.push(tohex(&xi)); if hits.len() >= maxh { break; } }
+                        }
+                        if hits.is_empty() { "none".into() } else { hits.join(",") }
+                    }
                     "os_keygen" => {
                         // OS-RNG convenience function: two calls must give different keys (freshness sanity, C12)
                         let (pk, _sk) = ps::try_keygen().unwrap();
